@@ -3,6 +3,7 @@ package engines
 import (
 	"fmt"
 	"os"
+	"unicode"
 	"sort"
 	"strconv"
 	"strings"
@@ -653,6 +654,9 @@ func execDraw(line string) (res h.Result) {
 						addF("display-mismatch", "cell (%d,%d): terminal shows %s/%s/%s, application set rune %d comb %v style %s (want %s/%s)",
 							x, y, ec.runes, ec.pen, ec.flags, c.main, c.comb, c.style, strings.Join(want, ","), pen)
 					}
+					if mustBeBlank(c.main) && got != "32" {
+						addF("payload-format-char-shown", "cell (%d,%d) holds U+%04X (control / bidi / invisible format character) as primary rune; the terminal shows %s instead of a blank", x, y, c.main, ec.runes)
+					}
 					if wide && x+1 < sh.w && !sh.locked[[2]int{x + 1, y}] && !strings.Contains(cells[y*sh.w+x+1].flags, "c") {
 						addF("wide-not-two-columns", "cell (%d,%d) holds a wide rune but (%d,%d) is not its right half on the terminal", x, y, x+1, y)
 					}
@@ -713,6 +717,24 @@ func execDraw(line string) (res h.Result) {
 		res.Tags = append(res.Tags, t)
 	}
 	return res
+}
+
+// mustBeBlank: primary runes the property says are shown as blanks, decided from the Go standard library's Unicode
+// tables (independent of go-runewidth): C0, DEL, C1, invalid code points, bidi controls, zero-width and invisible format
+// characters, line / paragraph separators, tag characters.
+func mustBeBlank(r int) bool {
+	if r < 0x20 || r == 0x7f || (r >= 0x80 && r <= 0x9f) || !validScalar(r) {
+		return true
+	}
+	rr := rune(r)
+	if unicode.Is(unicode.Bidi_Control, rr) || unicode.Is(unicode.Zl, rr) || unicode.Is(unicode.Zp, rr) {
+		return true
+	}
+	switch {
+	case r == 0xAD, r >= 0x200B && r <= 0x200D, r >= 0x2060 && r <= 0x2064, r == 0xFEFF, r == 0xE0001, r >= 0xE0020 && r <= 0xE007F:
+		return true
+	}
+	return false
 }
 
 func validScalar(r int) bool { return r >= 0 && r <= 0x10FFFF && !(r >= 0xD800 && r <= 0xDFFF) }
